@@ -1,15 +1,18 @@
-(* EngineRefineSpecFinal.v -- the top-level statements actually proved about step / Read / erun.
-   They differ from the ones first written down in EngineRefineSpecTop.v (step_refine_statement,
-   erun_sound_statement) in ONE respect: "io.EOF is only reported at the end of the final block"
-   is FALSE for the engine as it stands.  step() computes
+(* EngineRefineSpecFinal.v -- the top-level statements about step / Read / erun, for the engine
+   AFTER fix b29ee69 (reader.go step(): the whole bytes held in the bit buffer are counted as 0
+   when bitsLen is negative, first Discard site).
+
+   HISTORY (refuted version).  Before that fix the statement "io.EOF is only reported at the
+   end of the final block" was FALSE: step() computed
        discardSize := peekSize - len(input) - bitsLen/8
    also after a decode error, where bitsLen can be as low as -14 (readLitDistLens reports
-   errInvalidBlock after reading past the end of the input); Go's truncating division makes
-   bitsLen/8 = -1, discardSize exceeds what is buffered, bufio's Discard fails with io.EOF at
-   the end of the source, and step returns that error: a truncated stream is reported as a
-   clean EOF.  Concrete stream (6 bytes): ed 1d 80 e4 ff 9f  (theorem eof_on_truncated_stream).
-   So the EOF claims below are stated for an EOF reported in phase Finish (the legitimate
-   path); the prefix property holds unconditionally. *)
+   errInvalidBlock after reading past the end of the input); Go's truncating division made
+   bitsLen/8 = -1, discardSize exceeded what is buffered, bufio's Discard failed with io.EOF at
+   the end of the source, and step returned that error: a truncated stream was reported as a
+   clean EOF.  Concrete stream (6 bytes): ed 1d 80 e4 ff 9f; with output before it:
+   00 05 00 fa ff "hello" ed 1d 80 e4 ff 9f  gave ("hello", EOF).  Found while proving
+   step_refine (the proof obligation "Discard cannot fail" needed 0 <= bitsLen on the error
+   path).  `trunc_stream_regression` below records the behaviour after the fix. *)
 From Coq Require Import List NArith ZArith Bool.
 From Verif Require Import Bits Huffman Inflate InflateSpec InflateMono.
 From Verif Require Import Base EngineTables Engine EngineRefineSpec EngineRefineSpecBlock
@@ -18,41 +21,49 @@ From Verif Require Import Base EngineTables Engine EngineRefineSpec EngineRefine
 Import ListNotations.
 Open Scope N_scope.
 
-Definition step_refine2_statement : Prop :=
-  decomp_refine_statement -> decomperss_flush_statement -> decomp_phase_statement ->
+(* the quantified part of decomp_refine_statement *)
+Definition decomp_body : Prop :=
+  forall data fuel s out w c u,
+    Forall (fun x => x < 256) data ->
+    reach data c -> st_sim s c (bits_of_bytes u) ->
+    win_rel out w (cfg_st c) -> w <= outLen ->
+    let '(s', out', w', err) := decomp_loop fuel s out w in
+    let '(s2, out2, w2) := flush_ov s' out' w' in
+    exists c',
+      reach data c' /\ win_rel out2 w2 (cfg_st c') /\ w <= w2 /\ w2 <= outLen + 261 /\
+      (exists v, rout (cfg_st c') = v ++ rout (cfg_st c) /\ N.of_nat (length v) = w2 - w) /\
+      inputNil s2 = inputNil s /\
+      (err <> EPanic -> err <> EFuel -> isError err = false ->
+         st_sim s2 c' (bits_of_bytes u) /\
+         qbytes s2 <= qbytes s /\
+         (err = ENone \/ err = EEndInput \/ err = EOutputOverflow) /\
+         (err = ENone -> phase s2 = phaseStreamEnd) /\
+         (phase s2 = phaseDecodingHeader ->
+            err = EEndInput /\ r_in (rd s2) = [] /\ r_inlen (rd s2) = 0)).
+
+(* One call of step (made by Read when everything produced has been delivered).  Whatever the
+   outcome, the window holds reference output (so what Read delivers afterwards is correct);
+   io.EOF is only reported at the end of the final block, with exactly the bytes up to the
+   end of the stream consumed from the source; when step reports no error the invariant
+   holds again. *)
+Definition step_post (data delivered : list N) (f' : decompressor) (r : option rres) : Prop :=
+  (exists c, reach data c /\
+             delivered ++ pending_out f' = frev (rout (cfg_st c)) /\
+             readPos f' <= writePos f' /\
+             (r = Some REOF ->
+                exists st S0, c = CDone st S0 /\
+                  consumed (rBuf f') = (bp S0 + 7) / 8)) /\
+  derr f' = None /\
+  (r = None -> dec_inv data delivered f').
+
+Definition step_refine_final_statement : Prop :=
+  decomp_body -> decomperss_flush_statement ->
   bPeek_spec_statement -> bPeek_buffered_statement -> bDiscard_spec_statement ->
   reach_inv_statement ->
-  readHeader_refine_body -> readHeader_need_body ->
-  decodeHuffman_refine2_statement -> decodeLiteralBlock_refine_statement ->
   forall data delivered f,
     Forall (fun x => x < 256) data ->
     dec_inv data delivered f -> readPos f = writePos f -> derr f = None ->
-    let '(f', r) := step f in
-    (exists c, reach data c /\
-               delivered ++ pending_out f' = frev (rout (cfg_st c)) /\
-               readPos f' <= writePos f' /\
-               (r = Some REOF -> phase (state f') = phaseFinish ->
-                  exists st S0, c = CDone st S0 /\
-                    consumed (rBuf f') = (bp S0 + 7) / 8)) /\
-    derr f' = None /\
-    (r = None -> dec_inv data delivered f').
-
-(* The main soundness theorem about the top level (erun_loop is erun_ext keeping the final
-   decompressor): whatever the chunking of the source, the bufio size, the terminal condition
-   of the source and the read sizes,
-   - the bytes returned by the successive Read calls are a prefix of the reference output;
-   - if a Read returned io.EOF and the decoder is in phase Finish, the reference says Done, ALL
-     of its output has been returned, and the number of source bytes consumed is
-     (bitpos + 7) / 8. *)
-Definition erun_sound2_statement : Prop :=
-  forall data cs bufsize t reads,
-    Forall (fun x => x < 256) data -> concat cs = data -> Forall (fun c => c <> []) cs ->
-    let '(l, f) := erun_loop (newReader bufsize cs t) reads [] in
-    is_prefix (results_bytes l) (out (Inflate.inflate [] data)) /\
-    (In REOF (map snd l) -> phase (state f) = phaseFinish ->
-       status (Inflate.inflate [] data) = Done /\
-       results_bytes l = out (Inflate.inflate [] data) /\
-       consumed (rBuf f) = (bitpos (Inflate.inflate [] data) + 7) / 8).
+    let '(f', r) := step f in step_post data delivered f' r.
 
 (* erun_ext / erun are projections of erun_loop *)
 Definition erun_ext_loop_statement : Prop :=
@@ -60,8 +71,8 @@ Definition erun_ext_loop_statement : Prop :=
     erun_ext bufsize cs t reads =
     let '(l, f) := erun_loop (newReader bufsize cs t) reads [] in (l, consumed (rBuf f)).
 
-(* the defect: a truncated stream on which the engine reports a clean EOF *)
+(* the stream that used to be reported as a clean EOF *)
 Definition trunc_stream : list N := [237; 29; 128; 228; 255; 159].
-Definition eof_on_truncated_stream_statement : Prop :=
-  erun 4096 [trunc_stream] TEOF [100] = [([], REOF)] /\
+Definition trunc_stream_regression_statement : Prop :=
+  (forall r, In r (map snd (erun 4096 [trunc_stream] TEOF [100; 100])) -> r <> REOF) /\
   status (Inflate.inflate [] trunc_stream) = NeedInput.
